@@ -46,6 +46,7 @@ import (
 	"github.com/containerd/stargz-snapshotter/task"
 	"github.com/containerd/stargz-snapshotter/util/cacheutil"
 	"github.com/containerd/stargz-snapshotter/util/namedmutex"
+	"github.com/containerd/stargz-snapshotter/util/verifhook"
 	fusefs "github.com/hanwen/go-fuse/v2/fs"
 	digest "github.com/opencontainers/go-digest"
 	ocispec "github.com/opencontainers/image-spec/specs-go/v1"
@@ -255,6 +256,7 @@ func (r *Resolver) Resolve(ctx context.Context, hosts source.RegistryHosts, refs
 	// can hopefully get from the cache.
 	r.resolveLock.Lock(name)
 	defer r.resolveLock.Unlock(name)
+	verifhook.Gate("layer.resolve.locked", r, name)
 
 	ctx = log.WithLogger(ctx, log.G(ctx).WithField("src", name))
 
@@ -263,17 +265,21 @@ func (r *Resolver) Resolve(ctx context.Context, hosts source.RegistryHosts, refs
 	c, done, ok := r.layerCache.Get(name)
 	r.layerCacheMu.Unlock()
 	if ok {
+		verifhook.Gate("layer.resolve.lhit", r, name, c)
 		if l := c.(*layer); l.Check() == nil {
 			log.G(ctx).Debugf("hit layer cache %q", name)
 			return &layerRef{l, done}, nil
 		}
+		verifhook.Gate("layer.resolve.lstale", r, name, c)
 		// Cached layer is invalid
 		done(true)
+		verifhook.Gate("layer.resolve.levicted", r, name, c)
 		r.layerCacheMu.Lock()
 		r.layerCache.Remove(name)
 		r.layerCacheMu.Unlock()
 	}
 
+	verifhook.Gate("layer.resolve.resolving", r, name)
 	log.G(ctx).Debugf("resolving")
 
 	// Resolve the blob.
@@ -287,6 +293,7 @@ func (r *Resolver) Resolve(ctx context.Context, hosts source.RegistryHosts, refs
 		}
 	}()
 
+	verifhook.Gate("layer.resolve.blob", r, name, blobR.Blob)
 	fsCache, err := newCache(filepath.Join(r.rootDir, "fscache"), r.config.FSCacheType, r.config)
 	if err != nil {
 		return nil, fmt.Errorf("failed to create fs cache: %w", err)
@@ -297,6 +304,7 @@ func (r *Resolver) Resolve(ctx context.Context, hosts source.RegistryHosts, refs
 		}
 	}()
 
+	verifhook.Gate("layer.resolve.fscache", r, name)
 	// Get a reader for stargz archive.
 	// Each file's read operation is a prioritized task and all background tasks
 	// will be stopped during the execution so this can avoid being disturbed for
@@ -339,6 +347,7 @@ func (r *Resolver) Resolve(ctx context.Context, hosts source.RegistryHosts, refs
 		mergeBufferSize:  r.config.MergeBufferSize,
 		mergeWorkerCount: r.config.MergeWorkerCount,
 	}, r.config.LogFileAccess)
+	verifhook.Gate("layer.resolve.lnew", r, name, l)
 	r.layerCacheMu.Lock()
 	cachedL, done2, added := r.layerCache.Add(name, l)
 	r.layerCacheMu.Unlock()
@@ -359,16 +368,20 @@ func (r *Resolver) resolveBlob(ctx context.Context, hosts source.RegistryHosts, 
 	c, done, ok := r.blobCache.Get(name)
 	r.blobCacheMu.Unlock()
 	if ok {
+		verifhook.Gate("layer.resolve.bhit", r, name, c)
 		if blob := c.(remote.Blob); blob.Check() == nil {
 			return &blobRef{blob, done}, nil
 		}
+		verifhook.Gate("layer.resolve.bstale", r, name, c)
 		// invalid blob. discard this.
 		done(true)
+		verifhook.Gate("layer.resolve.bevicted", r, name, c)
 		r.blobCacheMu.Lock()
 		r.blobCache.Remove(name)
 		r.blobCacheMu.Unlock()
 	}
 
+	verifhook.Gate("layer.resolve.bmiss", r, name)
 	httpCache, err := newCache(filepath.Join(r.rootDir, "httpcache"), r.config.HTTPCacheType, r.config)
 	if err != nil {
 		return nil, fmt.Errorf("failed to create http cache: %w", err)
@@ -379,11 +392,13 @@ func (r *Resolver) resolveBlob(ctx context.Context, hosts source.RegistryHosts, 
 		}
 	}()
 
+	verifhook.Gate("layer.resolve.httpcache", r, name)
 	// Resolve the blob and cache the result.
 	b, err := r.resolver.Resolve(ctx, hosts, refspec, desc, httpCache)
 	if err != nil {
 		return nil, fmt.Errorf("failed to resolve the source: %w", err)
 	}
+	verifhook.Gate("layer.resolve.bnew", r, name, b)
 	r.blobCacheMu.Lock()
 	cachedB, done, added := r.blobCache.Add(name, b)
 	r.blobCacheMu.Unlock()
